@@ -157,6 +157,41 @@ def free_value(fn, name):
     return False, None
 
 
+CODE_ALTS = {}    # code object -> {instance: function}: the same definition as bound in each allowed instance of its form
+SIMPLE = None
+
+
+def register_alts(inst, fn, seen=None):
+    seen = seen if seen is not None else set()
+    if id(fn) in seen or not isinstance(fn, types.FunctionType):
+        return
+    seen.add(id(fn))
+    CODE_ALTS.setdefault(fn.__code__, {})[str(inst)] = fn
+    for cell in fn.__closure__ or ():
+        try:
+            v = cell.cell_contents
+        except ValueError:
+            continue
+        if isinstance(v, types.FunctionType):
+            register_alts(inst, v, seen)
+
+
+def free_value_alts(fn, name):
+    """None when the free name denotes the same constant in every allowed instance of the form; else {instance: constant}.
+    (A closure variable computed from the instance in __init__, e.g. other = 'spouse' if instance == 'you' else 'taxpayer'.)"""
+    alts = CODE_ALTS.get(fn.__code__)
+    if not alts or len(alts) < 2:
+        return None
+    simple = (int, float, str, bool, type(None), tuple, pyenum.Enum)
+    vals = {inst: free_value(f, name) for inst, f in alts.items()}
+    if not all(ok and isinstance(v, simple) for ok, v in vals.values()):
+        return None
+    first = next(iter(vals.values()))[1]
+    if all(v == first and type(v) is type(first) for _, v in vals.values()):
+        return None
+    return {inst: v for inst, (_, v) in vals.items()}
+
+
 BUILTIN_FN = {'sum': 'FSum', 'min': 'FMin', 'max': 'FMax', 'float': 'FFloat', 'str': 'FStr', 'len': 'FLen',
               'round': 'FRound', 'ceil': 'FCeil', 'list': 'FList', 'any': 'FAny'}
 BOP = {ast.Add: 'OAdd', ast.Sub: 'OSub', ast.Mult: 'OMul', ast.Div: 'ODiv'}
@@ -206,6 +241,8 @@ class Tr(object):
                 return True, self.consts[node.id]
             if node.id in self.locals:
                 return False, None
+            if free_value_alts(self.fn, node.id):
+                return False, None          # instance dependent: not a definition-time constant of the line
             return free_value(self.fn, node.id)
         if isinstance(node, ast.Attribute):
             if isinstance(node.value, ast.Name) and node.value.id == self.S and self.field is not None:
@@ -268,6 +305,11 @@ class Tr(object):
                 return '(EConst %s)' % const_pv(self.consts[n.id], self.enums)
             if n.id in self.locals:
                 return '(EVar %s)' % cstr(n.id)
+            alts = free_value_alts(self.fn, n.id)
+            if alts:
+                # the constant depends on the instance of the form: a table indexed by the instance
+                items = ['(EConst (PStr %s), EConst %s)' % (cstr(inst), const_pv(v, self.enums)) for inst, v in sorted(alts.items())]
+                return '(EIndexE (EDict %s) EInstance)' % clist(items)
             ok, val = free_value(self.fn, n.id)
             if ok and isinstance(val, (int, float, str, bool, type(None), tuple, pyenum.Enum)):
                 return '(EConst %s)' % const_pv(val, self.enums)
@@ -718,6 +760,10 @@ def translate_year(H, year):
             if [(f.base_name(), type(f).__name__) for f in o2.fields()] != sig0:
                 raise TranslateError('%s: lines differ between instances %r and %r' % (cls.__name__, inst0, other))
         req = set(id(f) for f in obj.required_fields())
+        if getattr(cls, 'valid_instances', None):
+            for other in instances_of(cls):
+                for f2 in (obj if other == inst0 else cls(instance=other)).fields():
+                    register_alts(other, f2._value.__func__)
         lines_txt = []
         fsum = {'lines': {}, 'inputs': {}, 'thresholds': {}, 'instance0': inst0,
                 'valid_instances': list(getattr(cls, 'valid_instances', []) or [])}
